@@ -1088,6 +1088,19 @@ def run(ctx):
     if jobs:
         check_histories(ctx, jobs, 1)
 
+    # ---- persistence by file name: corpus families first, then the fixed ones, then drawn ones
+    fams = []
+    for path in sorted(glob.glob(os.path.join(VERIF, "corpus", "C15", "*.json"))):
+        fams += json.load(open(path)).get("name_families", [])
+    fams += NAME_FAMILIES
+    for _ in range(ctx.n(6, 60)):
+        stem = "".join(rng.choice("abcxyz_0123456789") for _ in range(rng.randint(1, 6)))
+        sep = rng.choice([".", ".", ".v", "_", ".0", "-"])
+        ext = rng.choice(["", "", ".pkl", ".p", ".pickle"])
+        sub = rng.choice(["", "", "d1/", "d.2/", "deep/er/"])
+        fams.append(list(dict.fromkeys(sub + stem + sep + str(rng.randrange(1, 30)) + ext for _ in range(3))))
+    check_persistence(ctx, [f for f in fams if len(f) >= 2])
+
     # ---- line-ups
     names = list(CLASSES)
 
@@ -1209,20 +1222,6 @@ def run(ctx):
     plu += [[l[1], l[0]] for l in plu[:1]] + [[l[1], l[1]] for l in plu[:1]]  # reversed order; subclass in the superclass's place
     check_poser_histories(ctx, plu)
     T["poser on histories"] = [round(float(x), 1) for x in clock() - t0]
-    t0 = clock()
-    # ---- persistence by file name: corpus families first, then the fixed ones, then drawn ones
-    fams = []
-    for path in sorted(glob.glob(os.path.join(VERIF, "corpus", "C15", "*.json"))):
-        fams += json.load(open(path)).get("name_families", [])
-    fams += NAME_FAMILIES
-    for _ in range(ctx.n(6, 60)):
-        stem = "".join(rng.choice("abcxyz_0123456789") for _ in range(rng.randint(1, 6)))
-        sep = rng.choice([".", ".", ".v", "_", ".0", "-"])
-        ext = rng.choice(["", "", ".pkl", ".p", ".pickle"])
-        sub = rng.choice(["", "", "d1/", "d.2/", "deep/er/"])
-        fams.append(list(dict.fromkeys(sub + stem + sep + str(rng.randrange(1, 30)) + ext for _ in range(3))))
-    check_persistence(ctx, [f for f in fams if len(f) >= 2])
-    T["persistence by name"] = [round(float(x), 1) for x in clock() - t0]
     if os.environ.get("C15_KEYS_OUT"):  # development aid: histogram of failure keys (used when testing mutants)
         import collections
         json.dump(collections.Counter("%s %s" % (f["kind"], f["key"]) for f in ctx.failures), open(os.environ["C15_KEYS_OUT"], "w"), indent=1)
